@@ -7,10 +7,66 @@ TRUST = ("Trusted: rustc/std, serde_json, the harness itself (generators, seams,
          "Sampling, not proof: a clean batch is evidence over the seeded runs only.")
 
 CLAIMED = {
+  "C01": dict(
+    category="exploration",
+    text=("Seeded deterministic simulation of encoder -> medium -> decoder for 16 consensus types: every consensus_encode/"
+          "consensus_decode runs against SimWriter/SimReader (short writes/reads down to 1 byte, EINTR, Ok(0), hard errors and early "
+          "EOF at drawn or swept byte offsets), the medium corrupts real encodings (bit flips and substitutions aimed at tag and "
+          "length bytes through a field-boundary map, truncation, extension, segment dup/drop/swap, length-prefix rewrites) and a "
+          "byzantine re-encoder re-frames them (non-minimal varints, witness flag without witnesses, superfluous null issuance, "
+          "unknown confidential prefix). Oracle: bytes and reported length at the seam equal the reference; errors never yield Ok; "
+          "whatever deserialize accepts re-encodes to exactly the delivered bytes; canonical values round-trip."),
+    design_ref="DESIGN.md §4 C01, appendix A/E",
+    note=TRUST + " Reference bytes are the library's own serialize() on a perfect medium, so a change made consistently to encoder and decoder is invisible (conformance with Elements Core is not C01).",
+    technique="deterministic simulation with fault injection: I/O seams (SimReader/SimWriter) + byte-fault medium + byzantine re-encoder, seeded search, replayable cases",
+  ),
+  "C04": dict(
+    category="exploration",
+    text=("Simulated wallet -> medium -> verifier/receivers pipeline: the RNG handed to Transaction::blind is a simulator-owned seam "
+          "(uniform, low-entropy and sticky personalities), the blinded transaction travels serialized through chunking/EINTR "
+          "reader/writer seams, then verify_tx_amt_proofs must accept it and every marked output must unblind with its receiver key "
+          "to the original asset/value and to exactly the factors the blinder reported, which must reproduce the commitments and nonce."),
+    design_ref="DESIGN.md §4 C04",
+    note=TRUST + " Soundness of the zero-knowledge proofs (secp256k1-zkp) is trusted. Workload postconditions dominate; the simulator contributes the RNG seam and the serialized hand-over.",
+    technique="deterministic simulation: RNG seam with adversarial personalities + serialized hop through I/O seams, seeded workload search",
+  ),
+  "C05": dict(
+    category="exploration",
+    text=("Fault injection by a byzantine relay between blinder and verifier: starting from verifying transactions produced as in C04, "
+          "exactly one tamper per delivery from the classes the property lists (explicit amount/asset, commitment replace/swap, "
+          "range/surjection proof remove/swap/foreign/bit-corrupt, script of a blinded output, issuance amount, differing or "
+          "wrong-length spent outputs) must make verification fail (wrong length specifically as UtxoInputLenMismatch); all-explicit "
+          "transactions are compared with a u128 per-asset reference including the zero-value rule."),
+    design_ref="DESIGN.md §4 C05",
+    note=TRUST + " Only the listed single-location tamper classes are injected; a changed generator of a confidential input is asserted only when every surjection ring covers the whole domain.",
+    technique="deterministic simulation: single-fault tamper injection in the medium between producer and verifier + executable balance model",
+  ),
+  "C07": dict(
+    category="exploration",
+    text=("Same seam sweep as C01 for PartiallySignedTransaction, raw Key/Pair/ProprietaryKey (including the one encoder that used "
+          "write instead of write_all, found and fixed), a generator of well-formed PSETs over random subsets of all BIP174/370/371, "
+          "Elements, proprietary/unknown and ELIP-100/102 fields and tap trees of every shape up to 8 leaves, medium faults aimed "
+          "through the key-value segment map, and byzantine re-framings (duplicate pair, dropped mandatory pair, count off by one, "
+          "wrong version, wrong preimage hash, key data on a keyless type). Oracle: value and byte round trip; for every accepted "
+          "delivery the canonical re-encoding decodes to an equal PSET and re-encodes to itself; forbidden framings are rejected."),
+    design_ref="DESIGN.md §4 C07, appendix D/E",
+    note=TRUST + " Interop byte-equality with Elements Core is not checked.",
+    technique="deterministic simulation with fault injection: I/O seams + key-value-aware medium + byzantine PSET re-encoder, seeded search",
+  ),
+  "C13": dict(
+    category="exploration",
+    text=("One simulated signer issues seeded histories (<= 24 steps) of legacy / segwit-v0 / taproot digest queries, the three "
+          "encode_signing_data_to forms into chunking/EINTR/hard-faulting writers, and witness_mut pushes against ONE SighashCache; "
+          "each step is compared with a cache created fresh for that query (digest, bytes or error), later steps must still match "
+          "after a mid-message write error, One(i,p_i) must equal All(p) for ANYONECANPAY types and be an error otherwise."),
+    design_ref="DESIGN.md §4 C13",
+    note=TRUST + " Whether the digests are the consensus ones is C03 (not applicable). Same spent outputs throughout a history.",
+    technique="deterministic simulation: seeded operation histories against a stateful object vs per-step fresh reference model, with write-fault injection",
+  ),
   "C17": dict(
     category="fault_enumeration",
     text=("Fault enumeration over the property's own fault model: every 1-symbol substitution of the data part of "
-          "thousands of generated bech32/bech32m/blech32/blech32m addresses, every 1- and 2-symbol substitution of the HRP, "
+          "generated bech32/bech32m/blech32/blech32m addresses, every 1- and 2-symbol substitution of the HRP, "
           "and the COMPLETE set of 2-symbol data-part substitutions for representative addresses (each checksum variant x "
           "program-length class x network), plus seeded 2-symbol samples elsewhere; each corrupted string is parsed by the real "
           "from_str and parse_with_params under all three networks; any Ok is a violation."),
@@ -39,7 +95,10 @@ for line in open(os.path.join(ROOT, "tools", "pending.txt")) if os.path.exists(o
         PENDING[line] = "designed as a simulation target (DESIGN §4) but its check is not registered yet in this commit; not claimed until it is"
 
 checks = []
+PEND = set(PENDING)
 for pid in sorted(CLAIMED):
+    if pid in PEND:
+        continue
     c = CLAIMED[pid]
     checks.append({
         "property_id": pid,
@@ -52,9 +111,9 @@ for pid in sorted(CLAIMED):
         "level_note": c["note"],
         "technique": c["technique"],
     })
-na = [{"property_id": k, "reason": v} for k, v in sorted({**NA, **{k: v for k, v in PENDING.items() if k not in CLAIMED}}.items())]
+na = [{"property_id": k, "reason": v} for k, v in sorted({**NA, **PENDING}.items())]
 allp = [json.loads(l)["id"] for l in open(os.path.join(ROOT, "properties.jsonl"))]
-missing = [p for p in allp if p not in CLAIMED and p not in {x["property_id"] for x in na}]
+missing = [p for p in allp if (p not in CLAIMED or p in PEND) and p not in {x["property_id"] for x in na}]
 assert not missing, missing
 overlap = [p for p in CLAIMED if p in NA]
 assert not overlap, overlap
@@ -72,7 +131,7 @@ m = {
   "engines": [{
     "name": "elements-sim",
     "path": "/verif/sim",
-    "serves_properties": sorted(CLAIMED),
+    "serves_properties": sorted(p for p in CLAIMED if p not in PEND),
     "kind_free_text": "single-binary deterministic simulator: one PRNG keyed by (VERIF_SEED, world, scenario, run) draws an explicit case (workload spec, operations, I/O plans, RNG plans, medium faults, party order); execution consults no PRNG; seams SimReader/SimWriter/SimRng/counting allocator; supervisor child process for aborts; minimiser + self-contained replay files",
   }],
   "checks": checks,
